@@ -2,7 +2,7 @@
    (The same theorems about the index space serve C07 and C08: the three spaces share the code.) *)
 From Coq Require Import List Arith NArith Bool.
 Import ListNotations.
-From Orca Require Import Util Reindex Reorg ReidxProofs CheckReidx SelfReidx.
+From Orca Require Import Util Reindex Reorg ReidxProofs CheckReidx SelfReidx GenRefers RefersThm.
 Local Open Scope N_scope.
 
 (* reorganise_generic (the one-pass remove/insert/push loop over a snapshot) in closed form, for every
@@ -35,6 +35,13 @@ Print Assumptions C06_mapping_injective.
 Theorem C06_mapping_absent : forall l k, ~ In k (map it_id l) -> lookup (mapping l) k = None.
 Proof. exact mapping_absent. Qed.
 Print Assumptions C06_mapping_absent.
+
+(* over the regenerated tables: the operators with a function_index field are exactly call, return_call, ref.func,
+   and exactly those are rewritten *)
+Theorem C06_function_operator_tables_exact :
+  missing ops_with_func_index refers_to_func_list = [] /\ missing refers_to_func_list ops_with_func_index = [].
+Proof. exact refers_to_func_complete. Qed.
+Print Assumptions C06_function_operator_tables_exact.
 
 (* The full property (every reference kind designates the entity the caller's id denoted; the import
    section order agrees with the index space; the output validates) is false of the faithful model in the
